@@ -630,6 +630,14 @@ def compile(object, return_code=False):
     exec_code = code.to_code(value_to_code)
     exec_code = "\n".join(exec_code)  # Used to run the code
     eval_code = value_to_code(object_expression)  # Used to retrieve the result from the locals_globals dictionary
+    if isinstance(object, tracer.Tracer):
+        # The compiled object is not a function definition (e.g. a backend function that remains after inlining a graph)
+        # -> bind it to a name, such that the returned code is self-contained
+        result_name = "op"
+        while result_name in variableid_to_name.values():
+            result_name += "_"
+        exec_code += f"\n{result_name} = {eval_code}"
+        eval_code = result_name
 
     locals_globals = {**name_to_constant}
     try:
